@@ -306,8 +306,10 @@ def run(ctx):
                 ctx.case((n, m, arr, mix), {"source": ss, "target": ts, "tb": tb, "fb": fb}, nontrivial=bool(n and m))
                 judge(ctx, ss, ts, tb, fb)
     # a few larger inputs (coverage / pairing rules judged, optimality not)
-    for _ in range(ctx.scale(3, 20)):
-        n, m = rng.randint(8, 14), rng.randint(8, 14)
+    sizes = [(rng.randint(8, 14), rng.randint(8, 14)) for _ in range(ctx.scale(3, 20))]
+    # list lengths just below / at / above 16, 32, 64, 128, 256 on one or both sides
+    sizes += [(16, 17), (17, 17), (33, 16), (31, 65), (64, 64), (129, 40), (3, 257), (256, 5)] if (ctx.shard == 0 or ctx.thorough) else []
+    for n, m in sizes:
         bs, bt = _cluster(rng, n, m, "mixed")
         ss = [geoms.geom_in_box(rng, "BoundingBox", *b) for b in bs]
         ts = [geoms.geom_in_box(rng, "BoundingBox", *b) for b in bt]
